@@ -64,96 +64,102 @@ theorem pathOk_eq_validPath (p : Str) : pathOk p = validPath p := by
 
 /-! ### marshalling acceptance = having the type -/
 
-theorem marshalPlain_render (ty : DTy) (v : PyVal) : marshalPlain ty.render v = marshalTy ty v := by
-  simp [marshalPlain, ofSig_render]
+theorem marshalPlain_render (ty : DTy) (v : PVal) (h : v.isContainer = false) :
+    marshalPlain ty.render v = marshalTy ty v := by
+  simp [marshalPlain, ofSig_render, h]
 
 @[simp] theorem isSome_ite_some {α : Type} (c : Prop) [Decidable c] (a : α) :
     (if c then some a else none).isSome = decide c := by
   split <;> simp [*]
 
-theorem marshalPlain_i (v : PyVal) : marshalPlain ['i'] v = marshalTy .i v := marshalPlain_render .i v
-theorem marshalPlain_x (v : PyVal) : marshalPlain ['x'] v = marshalTy .x v := marshalPlain_render .x v
-theorem marshalPlain_t (v : PyVal) : marshalPlain ['t'] v = marshalTy .t v := marshalPlain_render .t v
-theorem marshalPlain_b (v : PyVal) : marshalPlain ['b'] v = marshalTy .b v := marshalPlain_render .b v
-theorem marshalPlain_d (v : PyVal) : marshalPlain ['d'] v = marshalTy .d v := marshalPlain_render .d v
-theorem marshalPlain_s (v : PyVal) : marshalPlain ['s'] v = marshalTy .s v := marshalPlain_render .s v
-theorem marshalPlain_as (v : PyVal) : marshalPlain ['a', 's'] v = marshalTy .as v := marshalPlain_render .as v
-theorem marshalPlain_av (v : PyVal) : marshalPlain ['a', 'v'] v = marshalTy .av v := marshalPlain_render .av v
+theorem marshalPlain_i (v : PVal) (h : v.isContainer = false) : marshalPlain ['i'] v = marshalTy .i v :=
+  marshalPlain_render .i v h
+theorem marshalPlain_x (v : PVal) (h : v.isContainer = false) : marshalPlain ['x'] v = marshalTy .x v :=
+  marshalPlain_render .x v h
+theorem marshalPlain_t (v : PVal) (h : v.isContainer = false) : marshalPlain ['t'] v = marshalTy .t v :=
+  marshalPlain_render .t v h
+theorem marshalPlain_b (v : PVal) (h : v.isContainer = false) : marshalPlain ['b'] v = marshalTy .b v :=
+  marshalPlain_render .b v h
+theorem marshalPlain_d (v : PVal) (h : v.isContainer = false) : marshalPlain ['d'] v = marshalTy .d v :=
+  marshalPlain_render .d v h
+theorem marshalPlain_s (v : PVal) (h : v.isContainer = false) : marshalPlain ['s'] v = marshalTy .s v :=
+  marshalPlain_render .s v h
+theorem marshalPlain_as (v : PVal) (h : v.isContainer = false) : marshalPlain ['a', 's'] v = marshalTy .as v :=
+  marshalPlain_render .as v h
+theorem marshalPlain_av (v : PVal) (h : v.isContainer = false) : marshalPlain ['a', 'v'] v = marshalTy .av v :=
+  marshalPlain_render .av v h
 
-/-- A raw (unwrapped) Python value marshals as a variant exactly when it is a wire value, and the peer
-decodes the same value. -/
-theorem encodeVariant_raw (v : PyVal) :
-    (wireOk v = true → ∃ sg, encodeVariant ⟨none, v⟩ = some (sg, v)) ∧
-    (wireOk v = false → encodeVariant ⟨none, v⟩ = none) := by
+/-- A wire value marshals as a variant, and the peer decodes the same value. -/
+theorem encodeVariant_raw (v : PVal) (hw : wireOk v = true) :
+    ∃ sg, encodeVariant ⟨none, v⟩ = some (sg, v) := by
   cases v with
-  | none => simp [wireOk, encodeVariant, sigFromPy]
+  | wint c n => simp [wireOk] at hw
+  | wstr c s => simp [wireOk] at hw
+  | list l => simp [wireOk] at hw
+  | tuple l => simp [wireOk] at hw
+  | dict l => simp [wireOk] at hw
+  | lists l => simp [wireOk] at hw
+  | none => simp [wireOk] at hw
   | bool b =>
-    simp [wireOk, encodeVariant, sigFromPy, marshalPlain_b, marshalTy, truthy]
-  | dbl b => simp [wireOk, encodeVariant, sigFromPy, marshalPlain_d, marshalTy]
+    simp [encodeVariant, sigFromPy, marshalPlain, DTy.ofSig, PVal.isContainer, marshalTy, truthy]
+  | dbl b => simp [encodeVariant, sigFromPy, marshalPlain, DTy.ofSig, PVal.isContainer, marshalTy]
   | str s =>
     have e : noNul s = strOk s := rfl
-    cases hs : strOk s <;>
-      simp [wireOk, encodeVariant, sigFromPy, marshalPlain_s, marshalTy, e, hs]
+    simp only [wireOk] at hw
+    simp [encodeVariant, sigFromPy, marshalPlain, DTy.ofSig, PVal.isContainer, marshalTy, e, hw]
   | strs l =>
+    simp only [wireOk] at hw
     cases l with
-    | nil => simp [wireOk, encodeVariant, sigFromPy, marshalPlain_av, marshalTy]
+    | nil => simp [encodeVariant, sigFromPy, marshalPlain, DTy.ofSig, PVal.isContainer, marshalTy]
     | cons a t =>
       have e : (a :: t).all noNul = (a :: t).all strOk := rfl
       have hs' : sigFromPy ⟨none, .strs (a :: t)⟩ = some ['a', 's'] := rfl
-      cases hs : (a :: t).all strOk <;>
-        simp [wireOk, encodeVariant, hs', marshalPlain_as, marshalTy, e, hs]
+      simp [encodeVariant, hs', marshalPlain, DTy.ofSig, PVal.isContainer, marshalTy, e, hw]
   | int n =>
+    simp only [wireOk, decide_eq_true_eq] at hw
     by_cases h1 : -2147483648 ≤ n ∧ n < 2147483648
     · have h1' : -2147483648 ≤ n ∧ n ≤ 2147483647 := by omega
-      have hw : -9223372036854775808 ≤ n ∧ n ≤ 18446744073709551615 := by omega
       have hs' : sigFromPy ⟨none, .int n⟩ = some ['i'] := by simp [sigFromPy, h1]
-      simp [wireOk, encodeVariant, hs', marshalPlain_i, marshalTy, DTy.intRange, h1', hw]
+      simp [encodeVariant, hs', marshalPlain, DTy.ofSig, PVal.isContainer, marshalTy, DTy.intRange, h1']
     · by_cases h2 : -9223372036854775808 ≤ n ∧ n < 9223372036854775808
       · have h2' : -9223372036854775808 ≤ n ∧ n ≤ 9223372036854775807 := by omega
-        have hw : -9223372036854775808 ≤ n ∧ n ≤ 18446744073709551615 := by omega
         have hs' : sigFromPy ⟨none, .int n⟩ = some ['x'] := by
           simp [sigFromPy, h1, h2]
-        simp [wireOk, encodeVariant, hs', marshalPlain_x, marshalTy, DTy.intRange, h2', hw]
+        simp [encodeVariant, hs', marshalPlain, DTy.ofSig, PVal.isContainer, marshalTy, DTy.intRange, h2']
       · have hs' : sigFromPy ⟨none, .int n⟩ = some ['t'] := by
           simp [sigFromPy, h1, h2]
-        by_cases h3 : (0 : Int) ≤ n ∧ n ≤ 18446744073709551615
-        · have hw : -9223372036854775808 ≤ n ∧ n ≤ 18446744073709551615 := by omega
-          simp [wireOk, encodeVariant, hs', marshalPlain_t, marshalTy, DTy.intRange, h3, hw]
-        · have hw : ¬ (-9223372036854775808 ≤ n ∧ n ≤ 18446744073709551615) := by omega
-          simp [wireOk, encodeVariant, hs', hw]
-          rw [marshalPlain_t]
-          simp [marshalTy, DTy.intRange, h3]
+        have h3 : (0 : Int) ≤ n ∧ n ≤ 18446744073709551615 := by omega
+        simp [encodeVariant, hs', marshalPlain, DTy.ofSig, PVal.isContainer, marshalTy, DTy.intRange, h3]
 
-theorem encodeVariant_raw_val {v : PyVal} {sg : Str} {w : PyVal}
-    (h : encodeVariant ⟨none, v⟩ = some (sg, w)) : w = v := by
-  cases hw : wireOk v
-  · rw [(encodeVariant_raw v).2 hw] at h; cases h
-  · obtain ⟨sg', e⟩ := (encodeVariant_raw v).1 hw
-    rw [e] at h; cases h; rfl
+theorem plain_of_wireOk {v : PVal} (hw : wireOk v = true) : v.plain = v := by
+  cases v <;> simp [wireOk] at hw <;> rfl
 
-theorem hasType_v (v : PyVal) : HasType .v v = wireOk v := by
-  cases v <;> simp [HasType, wireOk]
+theorem wrapperOk_of_wireOk {v : PVal} (hw : wireOk v = true) : wrapperOk v = true := by
+  cases v <;> simp [wireOk] at hw <;> rfl
 
-theorem conforms_eq_hasType (sig : Str) (v : PyVal) (hw : wireOk v = true) :
-    conforms sig v = HasTypeSig sig v := by
+theorem hasType_of_wireOk (ty : DTy) {v : PVal} (hw : wireOk v = true) : HasType ty v = HasTypeP ty v := by
+  simp [HasType, wrapperOk_of_wireOk hw, plain_of_wireOk hw]
+
+theorem hasType_v (v : PVal) : HasTypeP .v v = wireOk v := by
+  cases v <;> simp [HasTypeP, wireOk]
+
+theorem conforms_eq_hasType (sig : Str) (v : PVal) (hm : declarable sig = true)
+    (hw : wireOk v = true) : conforms sig v = HasTypeSig sig v := by
   unfold HasTypeSig
+  simp only [hasType_of_wireOk _ hw]
   cases h : DTy.ofSig sig with
-  | none =>
-    have hv : sig ≠ ['v'] := by intro e; subst e; simp [DTy.ofSig] at h
-    simp [conforms, marshalAs, hv, marshalPlain, h]
+  | none => simp [declarable, h] at hm
   | some ty =>
     have := ofSig_some h; subst this
     cases ty
     case v =>
-      obtain ⟨sg, e⟩ := (encodeVariant_raw v).1 hw
-      simp [conforms, kindOk, DTy.render, marshalAs, e, hasType_v, hw]
-    case av =>
-      cases v with
-      | strs l => cases l <;> simp [conforms, kindOk, DTy.render, marshalAs, marshalPlain_av, marshalTy, HasType]
-      | _ => simp [conforms, kindOk, DTy.render, marshalAs, marshalPlain_av, marshalTy, HasType]
+      obtain ⟨sg, e⟩ := encodeVariant_raw v hw
+      simp [conforms, kindOk, marshalOk, DTy.ofSig, DTy.render, marshalAs, e, hasType_v, hw]
+      cases v <;> simp [wireOk] at hw <;> simp [PVal.isContainer]
+    case av => simp [declarable, h] at hm
     all_goals
       cases v <;>
-      simp [conforms, kindOk, DTy.render, marshalAs, marshalPlain, DTy.ofSig, marshalTy, HasType,
+      simp [conforms, kindOk, marshalOk, DTy.render, marshalAs, marshalPlain, PVal.isContainer, DTy.ofSig, marshalTy, HasTypeP,
         DTy.intRange, wireOk, noNul, strOk, pathOk_eq_validPath] at hw ⊢
     all_goals try simp_all
     · simp [List.all_eq]
@@ -167,80 +173,196 @@ theorem validPath_noNul {s : Str} (h : validPath s = true) : ¬ Char.ofNat 0 ∈
   revert this
   decide
 
-theorem castClass_raw_of_not_key {sig : Str} (v : PyVal)
-    (h : ∀ c, sig = [c] → classOf c = none) : castClass sig v = some ⟨none, v⟩ := by
+theorem castClass_raw_of_not_key {sig : Str} (v : PVal)
+    (h : ∀ c, sig = [c] → classOf c = none) (hv : ∀ c s, v ≠ .wstr c s) :
+    castClass sig v = some ⟨none, v⟩ := by
   unfold castClass
   split
   · rename_i c
     rw [h c rfl]
+    by_cases hc : c = 's'
+    · subst hc
+      cases v <;> first | rfl | (rename_i c' s'; exact absurd rfl (hv c' s'))
+    · simp only [hc, if_false]
   · rfl
 
-/-- Get's typing of a value of the declared type: the reply carries that very value, in a variant of
+/-- Get's typing of a plain value of the declared type: the reply carries that very value, in a variant of
 exactly the declared type when the type is basic. -/
-theorem getReply_of_hasType {sig : Str} {v : PyVal} (h : HasTypeSig sig v = true) :
+theorem getReply_of_hasTypeP {sig : Str} {v : PVal}
+    (h : (match DTy.ofSig sig with | some ty => HasTypeP ty v | none => false) = true) :
     ∃ sg, getReply sig v = some (sg, v) ∧ (IsBasic sig = true → sg = sig) := by
-  unfold HasTypeSig at h
   cases hs : DTy.ofSig sig with
   | none => simp [hs] at h
   | some ty =>
     rw [hs] at h
+    simp only at h
     have := ofSig_some hs; subst this
     -- the types Get leaves to inference: the raw value is marshalled as a variant
-    have raw : ∀ (sig : Str), (∀ c, sig = [c] → classOf c = none) → wireOk v = true →
-        ∀ sg0, sigFromPy ⟨none, v⟩ = some sg0 →
+    have raw : ∀ (sig : Str), (∀ c, sig = [c] → classOf c = none) → (∀ c s, v ≠ .wstr c s) →
+        wireOk v = true → ∀ sg0, sigFromPy ⟨none, v⟩ = some sg0 →
         ∃ sg, getReply sig v = some (sg, v) ∧ sg = sg0 := by
-      intro sig hk hw sg0 hsg
-      obtain ⟨sg, e⟩ := (encodeVariant_raw v).1 hw
+      intro sig hk hv hw sg0 hsg
+      obtain ⟨sg, e⟩ := encodeVariant_raw v hw
       refine ⟨sg, ?_, ?_⟩
-      · simp [getReply, castClass_raw_of_not_key v hk, e]
+      · simp [getReply, castClass_raw_of_not_key v hk hv, e]
       · simp only [encodeVariant, hsg, Option.bind_some] at e
         cases hm : marshalPlain sg0 v with
         | none => simp [hm] at e
         | some w => simp [hm] at e; exact e.1.symm
     cases ty
     case s =>
-      cases v <;> simp [HasType] at h
-      obtain ⟨sg, e, rfl⟩ := raw ['s'] (by intro c hc; cases hc; decide) (by simpa [wireOk] using h) ['s'] rfl
+      cases v <;> simp [HasTypeP] at h
+      obtain ⟨sg, e, rfl⟩ := raw ['s'] (by intro c hc; cases hc; decide) (by intro c s e; cases e)
+        (by simpa [wireOk] using h) ['s'] rfl
       exact ⟨_, e, fun _ => rfl⟩
     case d =>
-      cases v <;> simp [HasType] at h
-      obtain ⟨sg, e, rfl⟩ := raw ['d'] (by intro c hc; cases hc; decide) (by simp [wireOk]) ['d'] rfl
+      cases v <;> simp [HasTypeP] at h
+      obtain ⟨sg, e, rfl⟩ := raw ['d'] (by intro c hc; cases hc; decide) (by intro c s e; cases e)
+        (by simp [wireOk]) ['d'] rfl
       exact ⟨_, e, fun _ => rfl⟩
     case as =>
-      cases v <;> simp [HasType] at h
+      cases v <;> simp [HasTypeP] at h
       rename_i l
       have hw : wireOk (.strs l) = true := by simpa [wireOk] using h
-      obtain ⟨sg, e⟩ := (encodeVariant_raw (.strs l)).1 hw
+      obtain ⟨sg, e⟩ := encodeVariant_raw (.strs l) hw
       exact ⟨sg, by simp [getReply, castClass, DTy.render, e], by simp [IsBasic, DTy.render]⟩
     case av =>
-      cases v <;> simp [HasType] at h
+      cases v <;> simp [HasTypeP] at h
       rename_i l
       cases l with
       | nil =>
-        obtain ⟨sg, e⟩ := (encodeVariant_raw (.strs [])).1 (by simp [wireOk])
+        obtain ⟨sg, e⟩ := encodeVariant_raw (.strs []) (by simp [wireOk])
         exact ⟨sg, by simp [getReply, castClass, DTy.render, e], by simp [IsBasic, DTy.render]⟩
-      | cons a t => simp [HasType] at h
+      | cons a t => simp [HasTypeP] at h
     case v =>
       have hw : wireOk v = true := by rw [← hasType_v]; exact h
-      obtain ⟨sg, e⟩ := (encodeVariant_raw v).1 hw
+      obtain ⟨sg, e⟩ := encodeVariant_raw v hw
       refine ⟨sg, ?_, by simp [IsBasic, DTy.render]⟩
       have : castClass ['v'] v = some ⟨none, v⟩ :=
         castClass_raw_of_not_key v (by intro c hc; cases hc; decide)
+          (by intro c s e; subst e; simp [wireOk] at hw)
       simp [getReply, DTy.render, this, e]
     case o =>
-      cases v <;> simp [HasType] at h
+      cases v <;> simp [HasTypeP] at h
       have hn := validPath_noNul h
       simp [getReply, castClass, classOf, dget, Gen.C17Props.classMap, DTy.render, pyStr,
-        encodeVariant, sigFromPy, marshalPlain, DTy.ofSig, marshalTy, IsBasic,
+        encodeVariant, sigFromPy, marshalPlain, PVal.isContainer, DTy.ofSig, marshalTy, IsBasic,
         noNul, pathOk_eq_validPath, h, hn]
     case g =>
-      cases v <;> simp [HasType] at h
+      cases v <;> simp [HasTypeP] at h
       simp [getReply, castClass, classOf, dget, Gen.C17Props.classMap, DTy.render, pyStr,
-        encodeVariant, sigFromPy, marshalPlain, DTy.ofSig, marshalTy, IsBasic, h]
+        encodeVariant, sigFromPy, marshalPlain, PVal.isContainer, DTy.ofSig, marshalTy, IsBasic, h]
       exact h.1.2
     all_goals
-      cases v <;> simp [HasType] at h <;>
+      cases v <;> simp [HasTypeP] at h <;>
       simp [getReply, castClass, classOf, dget, Gen.C17Props.classMap, DTy.render, pyInt,
-        encodeVariant, sigFromPy, marshalPlain, DTy.ofSig, marshalTy, DTy.intRange, truthy, IsBasic, h]
+        encodeVariant, sigFromPy, marshalPlain, PVal.isContainer, DTy.ofSig, marshalTy, DTy.intRange, truthy, IsBasic, h]
+
+/-- A sendable value (wire value or valid wrapper instance) marshals as a variant; the peer decodes its plain
+value. -/
+theorem encodeVariant_sendable {v : PVal} (h : Sendable v = true) :
+    ∃ sg, encodeVariant ⟨none, v⟩ = some (sg, v.plain) := by
+  simp only [Sendable, Bool.and_eq_true] at h
+  cases v with
+  | wint c n =>
+    simp only [wrapperOk, Bool.and_eq_true] at h
+    cases hs : DTy.ofSig [c] with
+    | none => simp [hs] at h
+    | some ty =>
+      rw [hs] at h
+      have hc := ofSig_some hs
+      cases ty <;> simp [DTy.render] at hc <;> subst hc <;> simp [PVal.plain, HasTypeP, IsBasic] at h ⊢ <;>
+        simp [encodeVariant, sigFromPy, marshalPlain, PVal.isContainer, DTy.ofSig, marshalTy, DTy.intRange, truthy, h]
+  | wstr c s =>
+    simp only [wrapperOk, Bool.and_eq_true] at h
+    cases hs : DTy.ofSig [c] with
+    | none => simp [hs] at h
+    | some ty =>
+      rw [hs] at h
+      have hc := ofSig_some hs
+      cases ty <;> simp [DTy.render] at hc <;> subst hc <;> simp [PVal.plain, HasTypeP, IsBasic] at h ⊢ <;>
+        simp [encodeVariant, sigFromPy, marshalPlain, PVal.isContainer, DTy.ofSig, marshalTy, noNul,
+          pathOk_eq_validPath, h]
+      · have := h.1; simpa [strOk] using this
+      · exact validPath_noNul h.1
+      · exact h.1.1.2
+  | none => exact encodeVariant_raw _ h.2
+  | int n => exact encodeVariant_raw _ h.2
+  | bool b => exact encodeVariant_raw _ h.2
+  | str s => exact encodeVariant_raw _ h.2
+  | dbl b => exact encodeVariant_raw _ h.2
+  | strs l => exact encodeVariant_raw _ h.2
+  | list l => simp [PVal.plain, wireOk] at h
+  | tuple l => simp [PVal.plain, wireOk] at h
+  | dict l => simp [PVal.plain, wireOk] at h
+  | lists l => simp [PVal.plain, wireOk] at h
+
+/-- Get's typing of a value of the declared type (plain or a valid wrapper instance): the reply carries its
+plain value, in a variant of exactly the declared type when the type is basic. -/
+theorem getReply_of_hasType {sig : Str} {v : PVal} (h : HasTypeSig sig v = true) :
+    ∃ sg, getReply sig v = some (sg, v.plain) ∧ (IsBasic sig = true → sg = sig) := by
+  unfold HasTypeSig at h
+  cases hs : DTy.ofSig sig with
+  | none => simp [hs] at h
+  | some ty =>
+    rw [hs] at h
+    simp only [HasType, Bool.and_eq_true] at h
+    have plainCase : ∀ w : PVal, w.plain = w → getReply sig v = getReply sig w → HasTypeP ty w = true →
+        v.plain = w → ∃ sg, getReply sig v = some (sg, v.plain) ∧ (IsBasic sig = true → sg = sig) := by
+      intro w _ hg hw hp
+      obtain ⟨sg, e, hb⟩ := getReply_of_hasTypeP (sig := sig) (v := w) (by rw [hs]; exact hw)
+      exact ⟨sg, by rw [hg, hp]; exact e, hb⟩
+    have hsig := ofSig_some hs
+    cases v with
+    | wint c n =>
+      cases ty
+      case v =>
+        subst hsig
+        obtain ⟨sg, e⟩ := encodeVariant_sendable (v := .wint c n)
+          (by simp only [Sendable, Bool.and_eq_true]; exact ⟨h.1, by rw [← hasType_v]; exact h.2⟩)
+        refine ⟨sg, ?_, by simp [IsBasic, DTy.render]⟩
+        have : castClass ['v'] (.wint c n) = some ⟨none, .wint c n⟩ :=
+          castClass_raw_of_not_key _ (by intro c hc; cases hc; decide) (by intro c s e; cases e)
+        simp [getReply, DTy.render, this, e]
+      all_goals
+        subst hsig
+        by_cases hb : c = 'b'
+        · subst hb
+          simp [PVal.plain, HasTypeP] at h ⊢ <;>
+          simp [getReply, castClass, classOf, dget, Gen.C17Props.classMap, DTy.render, pyInt,
+            encodeVariant, sigFromPy, marshalPlain, PVal.isContainer, DTy.ofSig, marshalTy, DTy.intRange, truthy, IsBasic]
+        · simp [PVal.plain, hb, HasTypeP] at h ⊢ <;>
+          simp [getReply, castClass, classOf, dget, Gen.C17Props.classMap, DTy.render, pyInt,
+            encodeVariant, sigFromPy, marshalPlain, PVal.isContainer, DTy.ofSig, marshalTy, DTy.intRange, truthy, IsBasic, h]
+    | wstr c s =>
+      cases ty
+      case v =>
+        subst hsig
+        obtain ⟨sg, e⟩ := encodeVariant_sendable (v := .wstr c s)
+          (by simp only [Sendable, Bool.and_eq_true]; exact ⟨h.1, by rw [← hasType_v]; exact h.2⟩)
+        refine ⟨sg, ?_, by simp [IsBasic, DTy.render]⟩
+        have : castClass ['v'] (.wstr c s) = some ⟨none, .wstr c s⟩ := by
+          simp [castClass, classOf, dget, Gen.C17Props.classMap]
+        simp [getReply, DTy.render, this, e]
+      case s =>
+        subst hsig
+        exact plainCase (.str s) rfl (by simp [getReply, castClass, classOf, dget, Gen.C17Props.classMap, DTy.render]) h.2 rfl
+      case o =>
+        subst hsig
+        exact plainCase (.str s) rfl (by simp [getReply, castClass, classOf, dget, Gen.C17Props.classMap, DTy.render, pyStr]) h.2 rfl
+      case g =>
+        subst hsig
+        exact plainCase (.str s) rfl (by simp [getReply, castClass, classOf, dget, Gen.C17Props.classMap, DTy.render, pyStr]) h.2 rfl
+      all_goals simp [PVal.plain, HasTypeP] at h
+    | none => exact plainCase _ rfl rfl h.2 rfl
+    | int n => exact plainCase _ rfl rfl h.2 rfl
+    | bool b => exact plainCase _ rfl rfl h.2 rfl
+    | str s => exact plainCase _ rfl rfl h.2 rfl
+    | dbl b => exact plainCase _ rfl rfl h.2 rfl
+    | strs l => exact plainCase _ rfl rfl h.2 rfl
+    | list l => exact plainCase _ rfl rfl h.2 rfl
+    | tuple l => exact plainCase _ rfl rfl h.2 rfl
+    | dict l => exact plainCase _ rfl rfl h.2 rfl
+    | lists l => exact plainCase _ rfl rfl h.2 rfl
 
 end Txdbus.Obj.Props
